@@ -16,8 +16,10 @@ import time
 import traceback
 
 VERIF = os.path.dirname(os.path.dirname(os.path.abspath(__file__)))
-REPLAYS = os.path.join(VERIF, 'replays')
-EVIDENCE = os.path.join(VERIF, 'evidence')
+# VERIF_OUT redirects replays/evidence (used when the checks are pointed at a mutated scratch copy)
+_OUT = os.environ.get('VERIF_OUT') or VERIF
+REPLAYS = os.path.join(_OUT, 'replays')
+EVIDENCE = os.path.join(_OUT, 'evidence')
 KNOWN = os.path.join(VERIF, 'known_findings.json')
 
 # ---------------------------------------------------------------- properties
